@@ -348,8 +348,26 @@ class TracebackInfo:
         :func:`traceback.format_stack`.
         """
         ret = 'Traceback (most recent call last):\n'
-        ret += ''.join([f.tb_frame_str() for f in self.frames])
-        return ret
+        last_site, count = None, 0
+        for f in self.frames:
+            site = (f.module_path, f.lineno, f.func_name)
+            if site != last_site:
+                ret += _repeated_line_note(count)
+                last_site, count = site, 0
+            count += 1
+            # like the interpreter, show only the first three of a
+            # run of identical entries (recursion)
+            if count <= 3:
+                ret += f.tb_frame_str()
+        return ret + _repeated_line_note(count)
+
+
+def _repeated_line_note(count):
+    if count <= 3:
+        return ''
+    count -= 3
+    return '  [Previous line repeated {} more time{}]\n'.format(
+        count, 's' if count > 1 else '')
 
 
 class ExceptionInfo:
